@@ -12,6 +12,7 @@ import Driver.C14
 import Driver.C06
 import Driver.C15
 import Driver.C17
+import Driver.C18
 import Driver.C19
 /-!
 Line-protocol driver.  Reads one JSON object per line on stdin, each with a field `p`
@@ -34,6 +35,7 @@ def dispatch (j : Json) : Json :=
   | "C14" => Driver.C14.handle j
   | "C15" => Driver.C15.handle j
   | "C17" => Driver.C17.handle j
+  | "C18" => Driver.C18.handle j
   | "C19" => Driver.C19.handle j
   | "C08" => Driver.C09.handle j
   | "C01" => Driver.C03.handle j
